@@ -18,8 +18,11 @@
 (*   head request:   one valid header                                      *)
 (* Everything else must be an error.  A response that is itself such a run *)
 (* (Perfect) must be accepted.  Where the statement leaves freedom         *)
-(* (reordered entries, a bad tail after a good prefix, oversize) both      *)
+(* (reordered entries, a bad tail after a good prefix) both                *)
 (* rejecting and returning an allowed result are fine: verdict "either".   *)
+(* A response with more entries than the requested amount must always be   *)
+(* rejected, valid headers mixed with not-found / invalid / garbage        *)
+(* entries at any position included.                                       *)
 (*                                                                         *)
 (* Algorithmic layer: Decode(req, resp) mirrors decode_and_verify_responses*)
 (* (reject empty / oversize, take the prefix of good entries, sort by      *)
@@ -67,8 +70,10 @@ OkAllowed(r, rs, s) ==
        ELSE /\ Len(s) <= r.amount
             /\ \A i \in 1..Len(s) : r.start + (i - 1) <= M /\ rs[s[i]].h = r.start + (i - 1)
 
+\* A list longer than the requested amount is not a well-formed response, whatever the status of
+\* its entries (a not-found / invalid / garbage entry before the surplus does not excuse it).
 AllowedOk(r, rs) ==
-    IF ~ValidReq(r) \/ Len(rs) = 0 THEN {}
+    IF ~ValidReq(r) \/ Len(rs) = 0 \/ Len(rs) > r.amount THEN {}
     ELSE {s \in IdxSeqs(Len(rs)) : OkAllowed(r, rs, s)}
 
 Identity(n) == [i \in 1..n |-> i]
